@@ -167,14 +167,14 @@ func (c Config) GenesisJSON() []byte {
 
 // World is one node: ledger + state + managers over one vkv space.
 type World struct {
-	Cfg     Config
-	Space   *vkv.Space
-	Env     *xconf.EnvConf
-	Ledger  *ledger.Ledger
-	State   *state.State
-	Chain   *common.ChainCtx
+	Cfg    Config
+	Space  *vkv.Space
+	Env    *xconf.EnvConf
+	Ledger *ledger.Ledger
+	State  *state.State
+	Chain  *common.ChainCtx
 	// Node is the real xuperos.Chain object over Chain (PreExec / SubmitTx).
-	Node *xuperos.Chain
+	Node    *xuperos.Chain
 	Genesis *pb.InternalBlock
 	Log     logs.Logger
 	// KernelHook, if set, is called with the contract manager each time the
